@@ -257,8 +257,9 @@ Print Assumptions C04_from_ip_records_refuted.
    FULL STATEMENT (not proved): for the three entry points, the view of the
    LaxPacketHeaders result = the converted LaxSlicedPacket result (headers, payload
    window + incomplete flag, stop error and its layer) unless the documented exception.
-   Proved: the transport layer and the IPv4 layer (below); the IPv6 extension chain, the
-   link-extension loop and the entry points of the lax pair are covered by the
+   Proved: the transport layer, the IPv4 layer and whole packets at the bare-IP entry point
+   when the first header announces IPv4 (below); the IPv6 extension chain, the
+   link-extension loop and the other entry points of the lax pair are covered by the
    implementation-side comparison only (known record-level differences (C), (D) of
    notes/C04.md live there). *)
 
@@ -278,9 +279,30 @@ Print Assumptions C04_lax_transport_agrees_partial.
    (three-way total-length fall-back, incomplete flag, length source), same stop error *)
 Theorem C04_lax_ipv4_agrees_partial : forall s b0,
   bytes_ok (snd s) -> rd (snd s) 0 = Some b0 -> N.shiftr b0 4 = 4 -> 20 <= s_len s ->
-  lip4_rel (LaxIpHeaders.from_slice_lax s) (LaxIpSlice.from_slice s).
+  lip4_rel s (LaxIpHeaders.from_slice_lax s) (LaxIpSlice.from_slice s).
 Proof. exact lax_ip4_agree. Qed.
 Print Assumptions C04_lax_ipv4_agrees_partial.
+
+(* whole packets, bare-IP entry point, first nibble 4 (outside F11): LaxPacketHeaders::from_ip
+   and LaxSlicedPacket::from_ip reject with the same error, or give the same IPv4 header
+   and authentication header slices, the same transport header window, the same payload
+   window and incomplete flag, and the same stop error *)
+Theorem C04_lax_from_ip4_agrees_partial : forall bs b0,
+  bytes_ok bs -> rd bs 0 = Some b0 -> N.shiftr b0 4 = 4 -> 20 <= len bs ->
+  lax_ip4_packet_rel (LaxPacketHeaders.from_ip bs) (LaxSlicedPacket.from_ip bs).
+Proof. exact lax_from_ip4_agree. Qed.
+Print Assumptions C04_lax_from_ip4_agrees_partial.
+
+Example C04_ex_lax_ip4 :
+  let bs := drop 18 ex_f5 in
+  bytes_ok bs /\ rd bs 0 = Some 69 /\ N.shiftr 69 4 = 4 /\ 20 <= len bs /\
+  lhvres_of_h (LaxPacketHeaders.from_ip bs) =
+    LHOk (mkLHv None [] (Some (HvIpv4 (0, 20) None)) (Some (HvUdp (20, 8))) (LHvpUdp false (28, 0)) None).
+Proof.
+  cbv zeta. split; [apply bytes_okb_spec; vm_compute; reflexivity|].
+  split; [vm_compute; reflexivity|]. split; [vm_compute; reflexivity|].
+  split; [vm_compute; discriminate|]. vm_compute; reflexivity.
+Qed.
 
 (* the lax struct model on the F5 packet (UDP length 8 in a 12 byte IP payload) and on a
    packet cut inside the UDP header (stop error with offset and length source) *)
